@@ -11,33 +11,32 @@ Definition bindo {A B} (o : option A) (f : A -> option B) : option B :=
   match o with Some a => f a | None => None end.
 Notation "x <- a ;; b" := (bindo a (fun x => b)) (at level 61, a at next level, right associativity).
 
-(* None = the operation panics *)
-Definition add_u (c : tcfg) (a b : Z) : option Z :=
-  let r := a + b in
-  if r <? W64 then Some r else if release c then Some (r - W64) else None.
-Definition sub_u (c : tcfg) (a b : Z) : option Z :=
-  let r := a - b in
-  if 0 <=? r then Some r else if release c then Some (r + W64) else None.
-Definition mul_u (c : tcfg) (a b : Z) : option Z :=
-  let r := a * b in
-  if r <? W64 then Some r else if release c then Some (r mod W64) else None.
+(* None = the operation panics.  Since the repair of D11 every size computation of the crate
+   uses checked arithmetic, so these are the same in both build profiles; the plain operators
+   (panic in debug, wrap in release) remain available in Eval.v for code that uses them. *)
+Definition add_u (a b : Z) : option Z :=
+  let r := a + b in if r <? W64 then Some r else None.
+Definition sub_u (a b : Z) : option Z :=
+  let r := a - b in if 0 <=? r then Some r else None.
+Definition mul_u (a b : Z) : option Z :=
+  let r := a * b in if r <? W64 then Some r else None.
 
 (* helpers.rs: next_aligned(n, alignment) *)
-Definition next_aligned (c : tcfg) (n a : Z) : option Z :=
+Definition next_aligned (n a : Z) : option Z :=
   if a =? 0 then None
   else let r := n mod a in
-       if r =? 0 then Some n else add_u c n (a - r).
+       if r =? 0 then Some n else add_u n (a - r).
 
 (* helpers.rs: max_align::<T>() *)
 Definition max_align (c : tcfg) : Z := Z.max (ealign c) HEADER_ALIGN.
 
 (* helpers.rs: the num_bytes computed by make_layout::<T>(capacity, alignment) *)
 Definition layout_size (c : tcfg) (cap a : Z) : option Z :=
-  h <- next_aligned c HEADER_SIZE a ;;
+  h <- next_aligned HEADER_SIZE a ;;
   if cap =? 0 then Some h
-  else m <- mul_u c cap (esz c) ;;
-       d <- next_aligned c m a ;;
-       add_u c h d.
+  else m <- mul_u cap (esz c) ;;
+       d <- next_aligned m a ;;
+       add_u h d.
 
 (* helpers.rs: make_layout::<T>; None = the unwrap (or the arithmetic) panics *)
 Definition make_layout (c : tcfg) (cap a : Z) : option (Z * Z) :=
@@ -49,4 +48,4 @@ Definition map_size_hint (h : option Z) : Z :=
   match h with Some n => Z.min n 1024 | None => 0 end.
 
 (* distance from the block start to element 0 for a stored alignment a *)
-Definition data_offset (c : tcfg) (a : Z) : option Z := next_aligned c HEADER_SIZE a.
+Definition data_offset (a : Z) : option Z := next_aligned HEADER_SIZE a.
